@@ -537,11 +537,21 @@ func throughTicket(c *engine.Ctx, ms []rpac.ValidationInfo, evals *int64) {
 				"buffer-count-exceeds-data", "cut-inside-header", "cut-inside-buffer-table", "buffer-offset-beyond-data", "empty-pac",
 				// a keytab-principal override: ticket and PAC keys come from the override principal's entry, whatever the
 				// ticket's clear-text sname says (here a name the keytab does not hold)
-				"valid-under-override-unknown-sname", "bad-signature-under-override-unknown-sname"} {
+				"valid-under-override-unknown-sname", "bad-signature-under-override-unknown-sname",
+				// a ticket issued under the older key version the keytab still holds: its PAC is signed with that version's
+				// key; one signed with the newest version's key is not this ticket's PAC
+				"valid-older-kvno", "signed-with-newest-kvno-key-ticket-of-older-kvno"} {
 				key := svcKey
 				if variant == "signed-with-other-key" {
 					key = keyOf(et, c.Seed+5)
 				}
+				olderKey, _ := w.Lookup([]string{"HTTP", apworld.SvcHost}, apworld.Realm, 1, et)
+				if variant == "valid-older-kvno" {
+					key = olderKey
+				}
+				// distinct times, so that one reported in place of another shows
+				v.LogoffTime, v.KickOffTime = rpac.FileTime(apworld.T0.Add(3*time.Hour)), rpac.FileTime(apworld.T0.Add(5*time.Hour))
+				v.PasswordLastSet, v.PasswordCanChange = rpac.FileTime(apworld.T0.Add(-72*time.Hour)), rpac.FileTime(apworld.T0.Add(-48*time.Hour))
 				order := stdOrder
 				if variant == "missing-client-info" {
 					order = []uint32{rpac.TypeLogonInfo, rpac.TypeServerSig, rpac.TypeKDCSig}
@@ -566,6 +576,9 @@ func throughTicket(c *engine.Ctx, ms []rpac.ValidationInfo, evals *int64) {
 				cs := apworld.Base(et)
 				cs.AuthzData = []krbmsg.AuthDataEntry{{Type: 1, Data: inner}}
 				cs.AuthzLabel = "pac:" + variant
+				if strings.Contains(variant, "older-kvno") {
+					cs.TktKVNO, cs.TktKeyOf = 1, "svc1"
+				}
 				override := strings.Contains(variant, "under-override")
 				if override {
 					cs.TktSName = []string{"HTTP", "nosuch.test.gokrb5"}
@@ -588,6 +601,7 @@ func throughTicket(c *engine.Ctx, ms []rpac.ValidationInfo, evals *int64) {
 					uid, gid                   int
 					sids                       []string
 					user                       string
+					logon, logoff, pwset       time.Time
 				}
 				rec := map[string]interface{}{"etype": et, "model": mi, "variant": variant}
 				if pn := safe(func() {
@@ -606,17 +620,23 @@ func throughTicket(c *engine.Ctx, ms []rpac.ValidationInfo, evals *int64) {
 						g := cr.GetADCredentials()
 						ad.eff, ad.full, ad.dom, ad.srv, ad.domid, ad.uid, ad.gid, ad.sids = g.EffectiveName, g.FullName, g.LogonDomainName, g.LogonServer, g.LogonDomainID, g.UserID, g.PrimaryGroupID, g.GroupMembershipSIDs
 						ad.user = creds.UserName()
+						ad.logon, ad.logoff, ad.pwset = g.LogOnTime, g.LogOffTime, g.PasswordLastSet
 					}
 				}); pn != "" {
 					c.Violate("ticket", "panic:through-ticket:"+variant, map[string]interface{}{"panic": pn}, rec)
 					continue
 				}
-				wantOK := variant == "valid" || variant == "pac-decoding-off" || variant == "valid-under-override-unknown-sname"
+				wantOK := variant == "valid" || variant == "pac-decoding-off" || variant == "valid-under-override-unknown-sname" || variant == "valid-older-kvno"
 				if ok != wantOK {
 					c.Violate("ticket", fmt.Sprintf("through-ticket:%s:accepted=%v", variant, ok), map[string]interface{}{"err": fmt.Sprint(verr)}, rec)
 					continue
 				}
-				if variant == "valid" || variant == "valid-under-override-unknown-sname" {
+				if variant == "valid" || variant == "valid-under-override-unknown-sname" || variant == "valid-older-kvno" {
+					if !ad.logon.Equal(rpac.FromFileTime(v.LogonTime)) || !ad.logoff.Equal(rpac.FromFileTime(v.LogoffTime)) || !ad.pwset.Equal(rpac.FromFileTime(v.PasswordLastSet)) {
+						c.Violate("ticket", "through-ticket:ad-credentials-differ:times", map[string]interface{}{"logon": ad.logon, "logoff": ad.logoff, "password_last_set": ad.pwset,
+							"want_logon": rpac.FromFileTime(v.LogonTime), "want_logoff": rpac.FromFileTime(v.LogoffTime), "want_password_last_set": rpac.FromFileTime(v.PasswordLastSet)}, rec)
+						continue
+					}
 					if ad.eff != v.EffectiveName.Value || ad.full != v.FullName.Value || ad.uid != int(v.UserID) || ad.gid != int(v.PrimaryGroupID) || ad.dom != v.LogonDomainName.Value ||
 						ad.srv != v.LogonServer.Value || ad.domid != v.LogonDomainID.String() || strings.Join(ad.sids, ",") != strings.Join(v.GroupSIDs(), ",") {
 						c.Violate("ticket", "through-ticket:ad-credentials-differ", map[string]interface{}{"got": fmt.Sprintf("%+v", ad), "want_sids": v.GroupSIDs()}, rec)
